@@ -12,6 +12,7 @@ the identical, exact round trip.
 from __future__ import annotations
 
 import copy
+import io
 
 import numpy as np
 
@@ -93,6 +94,19 @@ def generate(rng: Prng, tier: str) -> dict:
             reads.append({"source": w.choice(["path", "string", "bytes", "textwrapper"]),
                           "stream": gen_stream(sp) if faulting else {}})
         g_ = {"write": write, "reads": reads}
+        rh = rng.stream(f"rewrite{g}")
+        if rh.chance(0.3):
+            # storage history: the written tree is edited in place and written AGAIN with the same arguments
+            # (onto the same path, optionally with the file's modification time restored), then read back
+            g_["rewrite"] = {"node": rh.below(64), "col": rh.choice(["x", "y", "z", "r"]),
+                             "via": rh.choice(["node", "ndata", "copy"]), "keep_mtime": rh.chance(0.6),
+                             "source": rh.choice(["path", "path", "string", "bytes"])}
+        ph = rng.stream(f"preamble{g}")
+        for rd in reads:
+            if rd["source"] != "path" and ph.chance(0.2):
+                # the caller hands in a stream it has already read a preamble from (position != 0)
+                rd["preamble"] = ph.choice(["BUNDLE entry 1 of 1\n", "# bundle entry 1 of 1\n", "\x00\x01HDR", "7 lines\n",
+                                            "1 1 0 0 0 1 -1\n", "né\n"])
         ah = rng.stream(f"aborted{g}")
         if ah.chance(0.25):
             g_["aborted"] = {"how": ah.choice(["disk", "disk", "generator"]), "at": ah.choice([0, 1, 30, 64, 100, 257, 1000]),
@@ -155,6 +169,105 @@ def compare(tree, exp: dict, exp_comments: list[str], n: int) -> dict | None:
     gc = [c.lstrip() for c in tree.comments]
     if gc != exp_comments:
         return {"tag": "comments_mismatch", "detail": f"got {gc[:8]} expected {exp_comments[:8]}"}
+    return None
+
+
+def open_stream(world, src_kind: str, text: str, data: bytes, plan, preamble):
+    """A caller-supplied stream positioned at the start of the SWC text; with a preamble the stream holds other
+    content first, which the caller has already consumed (the position handed in is not 0)."""
+    pre = preamble or ""
+    if src_kind == "string":
+        src = world.string_source(pre + text)
+        if pre:
+            got = src.read(len(pre))
+            assert got == pre
+    elif src_kind == "bytes":
+        pb = pre.encode("utf-8")
+        src = world.bytes_source(pb + data, plan)
+        if pb:
+            got = io.BytesIO.read(src, len(pb))  # the caller's own read, not subject to the plan
+            assert got == pb
+    else:
+        pb = pre.encode("utf-8")
+        src = world.text_wrapper_source(pb + data, plan, "utf-8")
+        if pre:
+            got = src.read(len(pre))
+            assert got == pre
+    if pre:
+        world.probe("c01.stream_handed_in_at_nonzero_position")
+    return src
+
+
+def rewrite_value(v: float) -> float:
+    """A different value whose 4-decimal spelling has the same length: the last carried digit is rotated."""
+    q = tree_model.quantize4(v)
+    t = f"{q:.4f}"
+    if len(t) > 12 or "e" in t or "n" in t:
+        return 1.5 if q != 1.5 else 2.5
+    t2 = t[:-1] + str((int(t[-1]) + 1) % 10)
+    return float(np.float32(float(t2)))
+
+
+def play_rewrite(world, Tree, tree, model, comments, tsource, wr, kwargs, rel, rw, gi):
+    """write -> (read) -> edit the tree in place -> write again with the same arguments -> read: the second text
+    must describe the edited tree (a writer that remembers its last output, or a reader that remembers a file by
+    name/size/time, answers with the old one)."""
+    import os
+
+    n = tree_model.n_nodes(model)
+    i = rw["node"] % n
+    col = rw["col"]
+    old = float(model[col][i])
+    new = rewrite_value(old)
+    model2 = copy.deepcopy(model)
+    model2[col][i] = new
+    target = tree
+    if rw["via"] == "copy":
+        target = tree.copy()
+        target.ndata[col][i] = np.float32(new)
+    elif rw["via"] == "node":
+        setattr(target.node(i), col, np.float32(new))
+    else:
+        target.ndata[col][i] = np.float32(new)
+    exp2, exp_comments2, n2 = expected_after(model2, comments, tsource, wr)
+    try:
+        if wr["target"] == "path":
+            st = os.stat(world.path(rel))
+            world.write_plans[rel] = StreamPlan.from_json(wr.get("wstream"))
+            target.to_swc(world.path(rel), **kwargs)
+            data2 = world.get(rel)
+            text2 = data2.decode("utf-8")
+            same_len = len(data2) == st.st_size
+            if rw["keep_mtime"]:
+                os.utime(world.path(rel), ns=(st.st_atime_ns, st.st_mtime_ns))
+                if same_len:
+                    world.fired("file_replaced_same_size_same_mtime")
+        else:
+            text2 = target.to_swc(**kwargs)
+            data2 = text2.encode("utf-8")
+            world.put(rel, data2)
+    except Exception as e:  # noqa: BLE001
+        return {"tag": "write_raised", "detail": f"second write: {type(e).__name__}: {e}"[:300]}
+    src_kind = rw["source"] if wr["target"] == "path" or rw["source"] != "path" else "path"
+    if src_kind == "path":
+        world.read_plans[rel] = StreamPlan.from_json({})
+        src = world.path(rel)
+    else:
+        src = open_stream(world, src_kind, text2, data2, StreamPlan.from_json({}), None)
+    try:
+        got = Tree.from_swc(src)
+    except Exception as e:  # noqa: BLE001
+        return {"tag": "read_raised", "detail": f"after rewrite: {type(e).__name__}: {e}"[:300]}
+    world.take_warnings()
+    v = compare(got, exp2, exp_comments2, n2)
+    world.log(gi, "rewrite", rw["via"], col, src_kind, rw["keep_mtime"], v["tag"] if v else None)
+    world.probe("c01.rewrite_after_edit")
+    if v:
+        v["detail"] = "after an in-place edit and a second write with the same arguments: " + v["detail"]
+        return v
+    if rw["via"] != "copy":
+        # the edit stays part of the written tree: the reference model follows it
+        model[col][i] = new
     return None
 
 
@@ -239,12 +352,8 @@ def execute(program: dict) -> dict:
                 if src_kind == "path":
                     world.read_plans[rel] = plan
                     src = world.path(rel)
-                elif src_kind == "string":
-                    src = world.string_source(text)
-                elif src_kind == "bytes":
-                    src = world.bytes_source(data, plan)
                 else:
-                    src = world.text_wrapper_source(data, plan, "utf-8")
+                    src = open_stream(world, src_kind, text, data, plan, rd.get("preamble"))
                 try:
                     got = Tree.from_swc(src)
                 except Exception as e:  # noqa: BLE001
@@ -270,6 +379,10 @@ def execute(program: dict) -> dict:
                     violation = {"tag": "schedule_dependence",
                                  "detail": f"read {ri} ({src_kind}) differs from read 0 of the same text"}
                     break
+            rw = gen.get("rewrite")
+            if rw and not violation:
+                violation = play_rewrite(world, Tree, tree, model, comments, tsource, wr, kwargs, rel, rw, gi)
+                steps += 1
             if violation:
                 violation["gen"] = gi
                 break
